@@ -229,7 +229,7 @@ SPECS["C01"] = dict(
 def c02_jobs(tier):
     cs = dict(harness="c02_cshift", pattern=r"^cshift/real-lambda/", label="complex-shift solver: back-transformation and root selection from an arbitrary Ritz state (real eigenvalues, three shifts)", deadline=120)
     if tier == "quick":
-        return [cs, dict(harness="gen_glue", pattern=r"^gen/n5k1m3/[A-Za-z]+/LargestMagn/maxit[01]/ic$|^genshift/n5k1m3/.*/maxit[01]/|^genhist/n5k1m3/.*/maxit0/|^gen/n5k2m4/(LargestMagn/LargestMagn|LargestReal/SmallestReal|LargestMagn/SmallestImag)/maxit0/|^genshift/n5k2m4/.*/maxit0/|^genhist2/.*/maxit0/icC(/shift)?/then-.*-maxit0$",
+        return [cs, dict(harness="gen_glue", pattern=r"^gen/n5k1m3/[A-Za-z]+/LargestMagn/maxit[01]/ic$|^genshift/n5k1m3/.*/maxit[01]/|^genhist/n5k1m3/.*/maxit0/|^gen/n5k2m4/(LargestMagn/LargestMagn|LargestReal/SmallestReal|LargestMagn/SmallestImag)/maxit0/|^genshift/n5k2m4/.*/maxit0/|^genhist2/.*/maxit0/icC(/shift)?/then-.*-maxit0$|^genhist2/.*/maxit1/icC/then-.*-maxit0$",
                      label="general glue (5,1,3) maxit<=1, (5,2,4) maxit 0, histories incl. a second compute() with other rule", deadline=280)]
     return c02_jobs("quick") + [dict(harness="c02_cshift", pattern=r"^cshift/complex-lambda/", label="complex-shift solver, complex eigenvalue [budgeted; undecided within the caps so far]", deadline=400, cap=(20, 120), budget=True),
                                 dict(harness="gen_glue", pattern=r"^gen/n(5k2m4|6k2m5|6k3m5|7k1m6)/LargestMagn/LargestMagn/maxit[01]/ic$|^gen/n5k2m4/(LargestReal|SmallestImag)/LargestMagn/maxit1/ic$|^genhist/n5k1m3/.*/maxit1/|^genhist2/",
@@ -267,7 +267,7 @@ def c05_jobs(tier):
     if tier == "quick":
         return [dict(harness="sym_glue", pattern=r"^sym/n4k2m3/(LargestMagn|BothEnds)/(LargestMagn|SmallestAlge|SmallestMagn)/maxit[01]/ic$|^sym/n3k1m2/.*/maxit[012]/ic$|^hist/n3k1m2/.*/maxit1/icic$|^hist2/n3k1m2/.*-maxit0$",
                      label="symmetric: all sorting rules, accessors, counters; second compute() with maxit 0 / another rule", deadline=200),
-                dict(harness="gen_glue", pattern=r"^gen/n5k1m3/(LargestReal|LargestMagn)/(SmallestReal|SmallestImag)/maxit[01]/ic$|^genshift/n5k1m3/LargestReal/SmallestReal/maxit[01]/|^genhist/n5k1m3/.*/maxit0/|^gen/n5k2m4/LargestReal/SmallestReal/maxit0/|^genshift/n5k2m4/LargestReal/SmallestReal/maxit0/|^genhist2/.*/maxit0/icC(/shift)?/then-.*-maxit0$",
+                dict(harness="gen_glue", pattern=r"^gen/n5k1m3/(LargestReal|LargestMagn)/(SmallestReal|SmallestImag)/maxit[01]/ic$|^genshift/n5k1m3/LargestReal/SmallestReal/maxit[01]/|^genhist/n5k1m3/.*/maxit0/|^gen/n5k2m4/LargestReal/SmallestReal/maxit0/|^genshift/n5k2m4/LargestReal/SmallestReal/maxit0/|^genhist2/.*/maxit0/icC(/shift)?/then-.*-maxit0$|^genhist2/.*/maxit1/icC/then-.*-maxit0$",
                      label="general: sorting rules, accessors, counters; second compute() with maxit 0 / another rule", deadline=200)]
     return c05_jobs("quick") + [dict(harness="sym_glue", pattern=r"^sym/n5k2m4/LargestMagn/(LargestMagn|SmallestAlge|SmallestMagn)/maxit[01]/ic$|^symshift/n5k2m4/.*/maxit[01]/", label="symmetric (5,2,4) [budgeted]", deadline=700, budget=True),
                                 dict(harness="gen_glue", pattern=r"^gen/n5k2m4/(LargestReal/SmallestReal|LargestMagn/SmallestImag)/maxit1/ic$|^genshift/n5k2m4/.*/maxit1/", label="general (5,2,4) maxit 1 [budgeted]", deadline=700, budget=True)]
